@@ -325,6 +325,16 @@ def gen_c01(tier, seed):
                     emit([f"old,r:3:{nb}", f"newf,{b}", "dispnew" if p.has("dispnew") else "disp"])
             if p.has("updispnew"):
                 emit([f"old,pos:{nb}", f"updispnew,r:4:{nb}"])
+            # the update after every unit of the alphabet, and after (unit; state-setting unit):
+            # delivery must not depend on a mode flag an earlier call left behind
+            if feat == "v3":
+                A = alphabet(p, rnd, small=True)
+                setters = [u for u in A if u[0].split(",")[0] in ("lut", "refresh", "bg", "border", "wake")]
+                big = p.n > 20000
+                for u in A:
+                    emit(u + [f"upd,pos:{n}", "disp"])
+                    for v in (setters if not big else setters[:2]):
+                        emit(u + v + [f"upd,r:{rnd.randint(1, 999)}:{n}", "disp"])
             if p.has("base"):
                 for b in bufs(nb):
                     emit([f"base,{b}", "disp"])
@@ -378,6 +388,15 @@ def gen_c06(tier, seed):
                     ops = [f"pchro,pos:{m},{x},{y},{w},{h}"]
                 lines.append(PN.line(sid, p, ["new"] + pre + ops, sched=sched_for(rnd)))
                 stats["windows"] += 1
+                # the same entry point after histories that move the driver's mode flags: an
+                # earlier partial update, sleep + wake_up, a clear, a LUT selection
+                if i < (3 if tier == "quick" else 8):
+                    hists = [ops + ["sleep", "wake"], ["sleep", "wake"], ["clear"], ops + ["wake"]]
+                    if p.has("lut"):
+                        hists += [ops + ["lut,full"], ["lut,quick"]]
+                    for hi, hpre in enumerate(hists):
+                        lines.append(PN.line(f"{sid}-h{hi}", p, ["new"] + pre + hpre + ops, sched=sched_for(rnd)))
+                        stats["windows"] += 1
     return {"v3": lines, "stats": stats}
 
 
@@ -583,7 +602,8 @@ def gen_c04(tier, seed, ctx=None):
             k += 1
     if ctx is None:
         return {"v3": [], "stats": {}}
-    pre = ctx.harness([PN.line(sid, p, ops) for (sid, p, ops) in base], "v3")
+    SCHED = "2,1,2,0,1,2,1,2,0,1,2,1"   # busy panels: status polls / wait loops are real transfers too
+    pre = ctx.harness([PN.line(sid, p, ops, sched=SCHED) for (sid, p, ops) in base], "v3")
     ranges = transfer_ranges(pre)
     lines = []
     stats = {"faults": 0, "ops": 0, "exhaustive_panels": []}
@@ -618,10 +638,10 @@ def gen_c04(tier, seed, ctx=None):
                 opname = ops[oi].split(",")[0]
                 for kf in idxs:
                     # a failed constructor returns no driver: nothing to recover
-                    lines.append(PN.line(f"{sid}-{opname}@{kf}", p, ops + (rec if opname != "new" else []), fault=kf))
+                    lines.append(PN.line(f"{sid}-{opname}@{kf}", p, ops + (rec if opname != "new" else []), fault=kf, sched=SCHED))
                     stats["faults"] += 1
                 if not twin_done:
-                    lines.append(PN.line(f"{sid}-twin@-", p, ops + rec))
+                    lines.append(PN.line(f"{sid}-twin@-", p, ops + rec, sched=SCHED))
                     twin_done = True
                 stats["ops"] += 1
             start += total
